@@ -591,7 +591,7 @@ H("C18", "matrix_card", "c18_proof_agreement_1x1", timeout=3600, oracle_features
 H("C03", "srp_internal_client", "c03_a_client_twice", timeout=2400, oracle_features=["b8"], encodes=["calculate_client_public_key", "LargeSafePrime::to_bigint", "Generator::to_bigint"],
   inputs="two arbitrary groups (g1, N1), (g2, N2) and private keys, used one after the other in one process", asserts="the second key is g2^a2 mod N2 (no state lingers from the first group)",
   bounds="history of two calls", assumes=[BIG_ASSUME])
-H("C09", "wrath_header::inner_crypto", "c09_inner_stream", timeout=2400, oracle_features=["cap64", "q4"], encodes=["InnerCrypto::new", "InnerCrypto::apply", "Rc4::apply_keystream"],
+H("C09", "wrath_header::inner_crypto", "c09_inner_stream", timeout=2400, oracle_features=["cap64", "q4"], file="stream", needs=["rc4"], encodes=["InnerCrypto::new", "InnerCrypto::apply", "Rc4::apply_keystream"],
   inputs="session key, direction constant, 263 data bytes, 256 pad bytes: any",
   asserts="calls of 250, 10 and 3 bytes after construction consume keystream bytes number 1024..1287, each once and in order",
   bounds="three calls; unwind 1030", assumes=["RC4 abstracted as a position-indexed pad in this harness (Rc4::new / apply_keystream stubbed); RC4 itself is c09_prga_step / c09_apply_*"])
